@@ -45,82 +45,15 @@ def const_rule(model, res):
 
 
 def loop_shape(model, res):
-    f = model.func("AaveV3Market._liquidate")
-    loops = [s for s in f.node.body if isinstance(s, ast.While)]
-    if len(loops) != 1:
-        raise AnalysisError("C12: _liquidate: expected one while loop")
-    w = loops[0]
-    t = w.test
-    # while 0 < hf < THRESHOLD
-    cond_ok = False
-    hv = None
-    if isinstance(t, ast.Compare) and len(t.ops) == 2 and all(isinstance(o, ast.Lt) for o in t.ops) \
-            and isinstance(t.left, ast.Constant) and t.left.value == 0 and isinstance(t.comparators[0], ast.Name):
-        hv = t.comparators[0].id
-        up = ast.unparse(t.comparators[1])
-        cond_ok = up in ("AaveV3CoreLib.HEALTH_FACTOR_LIQUIDATION_THRESHOLD", "1", "Decimal(1)", "Decimal('1')")
-    res.ob("R-SHAPE", "liquidation loop runs while 0 < HF < 1", f.loc(w), ok=cond_ok, detail=ast.unparse(t))
-    if not cond_ok:
-        res.find("R-SHAPE", f.qualname, f"liquidation loop condition `{ast.unparse(t)}`", f.loc(w),
-                 f"the loop condition is `{ast.unparse(t)}`; a position must be liquidated iff 0 < health factor < 1")
-        return
-    # hv is assigned only from the unrounded property, before the loop and as the last statement of the body
-    defs = [n for n in ast.walk(f.node) if isinstance(n, ast.Assign) and isinstance(n.targets[0], ast.Name) and n.targets[0].id == hv]
-    raw = all(ast.unparse(d.value) == "self.health_factor" for d in defs)
-    before = any(d in f.node.body and d.lineno < w.lineno for d in defs)
-    last = w.body and isinstance(w.body[-1], ast.Assign) and w.body[-1] in defs
-    ok = raw and before and bool(last) and len(defs) == 2
-    res.ob("R-SHAPE", f"`{hv}` is the market's unrounded health factor, refreshed after every step", f.loc(w), ok=ok,
-           detail="; ".join(ast.unparse(d) for d in defs))
-    if not ok:
-        res.find("R-SHAPE", f.qualname, f"loop variable `{hv}` is not the plain health factor", f.loc(w),
-                 f"`{hv}` must be `self.health_factor` (unmodified) before the loop and at the end of every iteration; found: "
-                 + "; ".join(ast.unparse(d) for d in defs))
-    # visited list: append(selected debt) before the attempt; selection excludes visited
-    visited = None
-    for n in ast.walk(f.node):
-        if isinstance(n, (ast.Assign, ast.AnnAssign)) and isinstance(getattr(n, "value", None), ast.List) and not n.value.elts:
-            tg = n.targets[0] if isinstance(n, ast.Assign) else n.target
-            if isinstance(tg, ast.Name) and (n in f.node.body):
-                visited = tg.id
-    calls = [n for n in ast.walk(w) if isinstance(n, ast.Call) and ast.unparse(n.func) == "self._do_liquidate"]
-    if visited is None or len(calls) != 1:
-        raise AnalysisError("C12: visited list / step call not recognised in _liquidate")
-    call = calls[0]
-    debt_key = ast.unparse(call.args[1]) if len(call.args) > 1 else "?"
-    app = [n for n in ast.walk(w) if isinstance(n, ast.Call) and ast.unparse(n.func) == f"{visited}.append"
-           and ast.unparse(n.args[0]) == debt_key]
-    inside_loop_reset = any(isinstance(n, (ast.Assign, ast.AnnAssign)) and
-                            ast.unparse(n.targets[0] if isinstance(n, ast.Assign) else n.target) == visited for n in ast.walk(w))
-    excl = any(isinstance(n, ast.Compare) and isinstance(n.ops[0], ast.NotIn) and ast.unparse(n.comparators[0]) == visited
-               for n in ast.walk(w))
-    once_ok = bool(app) and app[0].lineno < call.lineno and not inside_loop_reset and excl
-    res.ob("R-SHAPE", "each debt is attempted at most once (recorded before the attempt, excluded afterwards)", f.loc(call), ok=once_ok)
-    if not once_ok:
-        res.find("R-SHAPE", f.qualname, "once-per-debt bookkeeping broken", f.loc(call),
-                 f"the selected debt `{debt_key}` must be appended to `{visited}` before the step, `{visited}` must not be "
-                 f"re-initialised inside the loop, and the selection must skip visited debts")
-    # R-NONE: keys initialised to None inside the loop must be tested before the call
-    none_vars = set()
-    for n in ast.walk(w):
-        if isinstance(n, ast.Assign) and isinstance(n.targets[0], ast.Name) and isinstance(n.value, ast.Constant) and n.value.value is None:
-            none_vars.add(n.targets[0].id)
-    used = {ast.unparse(a) for a in call.args} & none_vars
-    guarded = set()
-    for n in ast.walk(w):
-        if isinstance(n, ast.If) and n.lineno < call.lineno:
-            txt = ast.unparse(n.test)
-            exits = any(isinstance(b, (ast.Break, ast.Return, ast.Continue)) for b in n.body)
-            for v in used:
-                if f"{v} is None" in txt and exits:
-                    guarded.add(v)
-    none_ok = used <= guarded
-    res.ob("R-NONE", f"selections {sorted(used)} are checked for None before the step", f.loc(call), ok=none_ok)
-    if not none_ok:
-        res.find("R-NONE", f.qualname, f"None selection passed to the step: {sorted(used - guarded)}", f.loc(call),
-                 f"{sorted(used - guarded)} start as None and are assigned only when a candidate exists (no unvisited debt / no "
-                 f"collateral left); _do_liquidate dereferences them unconditionally (`.name`), so the process does not end "
-                 f"with 'every debt visited once' but raises")
+    """The bar-end procedure equals the reference procedure (aave_refs.REF_LIQUIDATE) as a canonical loop: loop test
+    0 < HF < 1 on the unrounded health factor, read before the loop and after every step; smallest unvisited debt and
+    largest collateral; stop when no pair exists (so no None reaches the step); the debt is marked visited before the
+    attempt on EVERY iteration; a rejected step (AssertionError) is survived; the step gets the loop's own selections.
+    Decided by value numbering of the loop's one-iteration transfer relation - no text matching."""
+    effects_check(res, model, "AaveV3Market._liquidate", R.REF_LIQUIDATE,
+                  "liquidation loop: while 0 < HF < 1; pair selection; stop without a pair; each debt visited once "
+                  "(marked before the attempt, unconditionally); rejected step survived; HF refreshed after each step",
+                  ["_do_liquidate"], opaque=["health_factor", "borrows", "supplies", "_do_liquidate"], rule="R-SHAPE")
 
 
 class _WalletReach(Domain):
